@@ -42,6 +42,8 @@ def install_stubs(P, g, solver=None):
         rhs = numpy.array(rhs, dtype=object)
         _shadow_solution(P, A, rhs, "dx%d" % len(env.solves))
         if solver is not None:
+            if getattr(solver, "shadow_name", None):
+                _shadow_solution(P, A, rhs, solver.shadow_name(A, rhs))
             dx = solver(A, rhs, len(env.solves))
         else:
             dx = P.vector("dx%d" % len(env.solves), len(rhs))
@@ -222,4 +224,28 @@ def contract_solver(P):
                 CTX.cons.append(acc.z() == Sym.lift(rhs[i]).z())
         return dx
 
+    return solver
+
+
+def functional_solver(P):
+    """spsolve as an uninterpreted but deterministic function: identical argument terms give the identical result
+    vector, anything else a fresh unconstrained vector (so a system assembled at a stale state yields a different update)"""
+    from symrun.scalars import CTX, Sym
+
+    memo = {}
+
+    def keyof(A, rhs):
+        return tuple(Sym.lift(x).z().hash() for x in list(A.flat) + list(rhs.flat))
+
+    def solver(A, rhs, k):
+        key = keyof(A, rhs)
+        if key not in memo:
+            memo[key] = (len(memo), P.vector("dxf%d" % len(memo), len(rhs)))
+        return memo[key][1]
+
+    def shadow_name(A, rhs):
+        key = keyof(A, rhs)
+        return "dxf%d" % (memo[key][0] if key in memo else len(memo))
+
+    solver.shadow_name = shadow_name
     return solver
